@@ -86,3 +86,28 @@ Proof.
   (destruct (hsh seed (Z.pos c) n (Z.pos 2) mod 8 =? 0); [|destruct (hsh seed (Z.pos c) n (Z.pos 2) mod 8 <=? 3)]);
   cbn [app keys map fst]; repeat constructor; cbn [In]; intuition discriminate.
 Qed.
+
+(* the table devices never ask to be called back in the past when their periods are not negative *)
+Definition periods_ok (tab : dev_table) : bool := forallb (fun e : comp * (Z * Z * Z) => Z.leb 0 (snd (fst (snd e)))) tab.
+
+Lemma lookup_in_tab (tab : dev_table) c x : lookup c tab = Some x -> In (c, x) tab.
+Proof.
+  induction tab as [|[k v] r IH]; [discriminate|]. cbn [lookup]. destruct (Pos.eqb_spec c k) as [E|_].
+  - intros H. inversion H; subst. left. reflexivity.
+  - intros H. right. apply IH. exact H.
+Qed.
+
+Lemma table_dev_well tab : periods_ok tab = true -> forall c n t i w, snd (table_dev tab c n t i) = Some w -> t <= w.
+Proof.
+  intros Hp c n t i w. unfold table_dev. destruct (lookup c tab) as [[[seed period] policy]|] eqn:El; [|discriminate].
+  apply lookup_in_tab in El. pose proof (proj1 (forallb_forall _ tab) Hp _ El) as Hq. cbn [snd fst] in Hq. apply Z.leb_le in Hq.
+  cbn [snd].
+  assert (Hsome : forall x, Some x = Some w -> t <= x -> t <= w) by (intros x E Hx; injection E as E; rewrite <- E; exact Hx).
+  destruct (policy =? 1); [intros H; apply (Hsome _ H); lia|].
+  destruct (policy =? 2); [destruct (n =? 1); intros H; [apply (Hsome _ H); lia | discriminate]|].
+  destruct (policy =? 3).
+  { destruct (hsh seed (Z.pos c) n 7 mod 5 <? 3); intros H; [|discriminate]. apply (Hsome _ H).
+    assert (0 <= hsh seed (Z.pos c) n 7 mod 3) by (apply Z.mod_pos_bound; lia).
+    rewrite <- (Z.add_0_r t) at 1. apply Z.add_le_mono_l. apply Z.mul_nonneg_nonneg; lia. }
+  destruct (policy =? 4); [destruct (n mod 2 =? 1); intros H; apply (Hsome _ H); lia|]. discriminate.
+Qed.
